@@ -68,6 +68,23 @@ fn gen_comment(r: &mut Rng) -> String {
     s
 }
 
+/// The line ends of comment and processing-instruction data in one of their spellings: LF, CR LF, or a bare CR (where no LF
+/// follows, which would make it a CR LF).  All of them denote LF (XML 1.0, 2.11).
+fn spell_line_ends(r: &mut Rng, s: &str, choices: &mut std::collections::BTreeMap<String, u64>) -> String {
+    let cs: Vec<char> = s.chars().collect();
+    let mut out = String::new();
+    for (i, ch) in cs.iter().enumerate() {
+        if *ch == '\n' {
+            match r.below(4) {
+                0 => { out.push_str("\r\n"); *choices.entry("comment_pi.crlf".into()).or_insert(0) += 1; }
+                1 if cs.get(i + 1) != Some(&'\n') => { out.push('\r'); *choices.entry("comment_pi.cr".into()).or_insert(0) += 1; }
+                _ => { out.push('\n'); *choices.entry("comment_pi.lf".into()).or_insert(0) += 1; }
+            }
+        } else { out.push(*ch); }
+    }
+    out
+}
+
 fn gen_pi(r: &mut Rng) -> (String, Option<String>) {
     let target = r.pick(&["pi", "target", "x-m", "php", "xm"]).to_string();
     let data = if r.chance(1, 3) {
@@ -467,7 +484,7 @@ fn render_node(r: &mut Rng, n: &SNode, scope: &Scope, ren: &mut Rendering) {
             let slot = ren.slot();
             ren.text.push_str("<!--");
             let a = ren.text.len();
-            ren.text.push_str(s);
+            ren.text.push_str(&spell_line_ends(r, s, &mut ren.choices));
             let b = ren.text.len();
             ren.text.push_str("-->");
             ren.tree.push(format!("C{}@{}", enc(s), slot));
@@ -486,7 +503,7 @@ fn render_node(r: &mut Rng, n: &SNode, scope: &Scope, ren: &mut Rendering) {
                 Some(d) => {
                     ren.text.push_str(&ws(r, true).replace('\r', " "));
                     let c = ren.text.len();
-                    ren.text.push_str(d);
+                    ren.text.push_str(&spell_line_ends(r, d, &mut ren.choices));
                     let e = ren.text.len();
                     ren.spans.push(format!("pc{}={}-{}", slot, c, e));
                 }
